@@ -24,7 +24,8 @@ class C12(F.Check):
         "(result < n and result == a'*b' mod n), after proving the call-site arguments satisfy the precondition and the first argument strictly decreases (termination); "
         "functional correctness uses a witness quotient Q built from (a, b, n) as a proof hint; if a refactoring invalidates the hint the obligation becomes undecided, never a false alarm",
         "the same step re-interpreted at W bits (quick W=5, thorough W=6) is checked bit-precisely with no hints; that result is about the W-bit re-interpretation of the same IR",
-        "NOT claimed: pow_mod, gcd, jacobi_symbol, is_perfect_square, miller_rabin, strong_lucas, find_prime_factor and 'the primality test is exact for every 64-bit n' "
+        "is_perfect_square: only the stated 64-bit non-residue claim within a bounded number of Newton iterations; gcd: bit-precise at 8 bits (re-interpreted IR); "
+        "NOT claimed: pow_mod, jacobi_symbol, miller_rabin, strong_lucas, find_prime_factor and 'the primality test is exact for every 64-bit n' "
         "(needs 2^64 cases or number theory; outside bounded symbolic execution)",
         "factorisation read-outs mag<a>()*mag<b>() == mag<a*b>() for adversarial a, b (pseudoprimes, Carmichael numbers, prime squares, semiprimes near 2^16/2^31/2^32 computed by "
         "independent Python/sympy) observe the compiler's constexpr run of the real code: closed facts, no symbolic content",
@@ -339,26 +340,34 @@ class C12(F.Check):
                     hyp = T.TRUE
                 return T.and_(pre, hyp), T.and_(T.not_(e.ub), T.eq(e.ret, spec(a, b, n)))
             obw = F.Ob("mul_mod:step_at_%d_bits" % w, [("a", Bw), ("b", Bw), ("n", Bw), ("rec", Bw)], fn_w, kind=kind,
-                       kernels=["c12_mul_mod"], routes=["z3-bv", "cvc5-bv"], timeout=120 if kind == "claimed" else 60,
+                       kernels=["c12_mul_mod"], routes=["z3-bv", "cvc5-bv"], timeout=120 if kind == "claimed" else 40,
                        note="IR re-interpreted at %d bits; recursive call replaced by its contract; no hints" % w)
             obw.reinterpreted = True
             obs.append(obw)
         # ---------------- is_perfect_square and gcd, bit-precise at reduced width (re-interpreted IR; loops unwound with assertion)
-        WS = 12 if self.tier == "quick" else 16
+        # is_perfect_square at full 64-bit width: `curr * curr == n` is evaluated modulo 2^64, so a large Newton iterate whose square
+        # wraps onto n would be a false positive (it is one for the even n = 2^34 + 4, which the primality test never passes in).
+        # For ODD n with n mod 8 in {3, 5, 7} (so certainly not squares) the solver shows that
+        # no return within the first U iterations answers 'true'.
+        U_SQ = 8 if self.tier == "quick" else 16
 
-        def fn_sq(K, n, WS=WS):
+        def fn_sq(K, n, U_SQ=U_SQ):
             if isinstance(K["c12_is_square"], F.NativeHandle):
-                e = K["c12_is_square"](T.zext(n, 64))
-                nv = n.attr
                 import math
+                e = K["c12_is_square"](n)
+                nv = n.attr
                 return T.TRUE, T.and_(T.not_(e.ub), T.eq(e.ret, T.const_bool(math.isqrt(nv) ** 2 == nv)))
-            e = K["c12_is_square"](n, unwind=WS + 2, width_map={64: WS})
-            spec = T.or_(*[T.eq(n, T.const_bv(r * r, WS)) for r in range(1 << (WS // 2))])
-            return T.TRUE, T.and_(T.not_(e.ub), T.not_(e.unwind), T.eq(e.ret, spec))
-        ob = F.Ob("is_perfect_square:at_%d_bits" % WS, [("n", T.BV(WS))], fn_sq, kernels=["c12_is_square"], routes=["z3-bv", "cvc5-bv"],
-                  timeout=120, note="IR re-interpreted at %d bits: result <=> n is one of the squares r*r; Newton loop unwound %d times with unwinding assertion" % (WS, WS + 2))
-        ob.reinterpreted = True
-        obs.append(ob)
+            e = K["c12_is_square"](n, unwind=U_SQ)
+
+            # certificate of non-squareness that costs the solver nothing: odd squares are 1 mod 8
+            # (adding the mod 3/5/7 certificates made the query undecided in 240 s; measured)
+            nonres = T.ne(T.extract(n, 2, 0), T.const_bv(1, 3))
+            pre = T.and_(T.eq(T.extract(n, 0, 0), T.const_bv(1, 1)), nonres, T.not_(e.unwind))
+            return pre, T.and_(T.not_(e.ub), T.not_(e.ret))
+        obs.append(F.Ob("is_perfect_square:odd_nonresidues_64bit", [("n", T.BV(64))], fn_sq, kernels=["c12_is_square"],
+                        routes=["cvc5-bv", "z3-bv"], timeout=200,
+                        note="64-bit, bit-precise: odd n with n mod 8 != 1 (hence not a square) is never reported as a perfect square by "
+                             "any return within the first %d Newton iterations (paths needing more iterations are outside the claim)" % U_SQ))
         WG = 8
 
         def fn_gcd(K, a, b, WG=WG):
